@@ -27,6 +27,9 @@ pub(crate) struct Batch {
 	// the pipeline overwrites it before the batch is written to WAL.
 	pub(crate) starting_seq_num: u64,
 	pub(crate) size: u64, // Total size of all records (not serialized)
+	/// WAL segment this batch was logged to (not serialized; set by the commit
+	/// environment when it writes the WAL, read when it applies the batch).
+	pub(crate) wal_number: Option<u64>,
 }
 
 impl Default for Batch {
@@ -43,6 +46,7 @@ impl Batch {
 			version: BATCH_VERSION,
 			starting_seq_num,
 			size: 0,
+			wal_number: None,
 		}
 	}
 
@@ -287,6 +291,7 @@ impl Batch {
 			valueptrs,
 			starting_seq_num: seq_num,
 			size: 0, // Decoded batches don't track size
+			wal_number: None,
 		})
 	}
 }
